@@ -322,6 +322,7 @@ class Check:
             "rule": rule,
             "samples": self.samples[:8] or ["(no samples)"],
             "known_findings_hit": self.known_hit,
+            "cases_not_run_by_the_driver": getattr(self, "not_run", 0),
         })
         if "coqchk_rc" in proof:
             cov["coqchk"] = {"rc": proof["coqchk_rc"], "seconds": proof.get("coqchk_s"), "tail": proof["coqchk_tail"][-600:]}
